@@ -205,9 +205,9 @@ def mkMachine (c : Cfg) : Option Machine :=
         | _ => none) with
     | none => none
     | some pre =>
-    pure { κ := List (QEntry Int), K := (resolveC (β := Int) (c.get "ord" != some "0") (c.flag "waker")).adapt
+    pure { κ := ResSt Int, K := (resolveC (β := Int) (c.get "ord" != some "0") (c.flag "waker")).adapt
              (fun | .fut d (some v) => some (d, v) | _ => none) .int,
-           k := pre, aux := fun q => toString q.length,
+           k := ⟨pre, false⟩, aux := fun k => toString k.q.length,
            parse := fun s => match pFut s with | some (d, some v) => some (.fut d (some v)) | _ => none, ports := np }
   | "fma" => pure { κ := FmaSt Int, K := (fmaC (β := Int)).adapt (fun | .fut d v => some (d, v) | _ => none) .int, k := ⟨none, none⟩,
                     aux := noAux, parse := fun s => (pFut s).map fun p => .fut p.1 p.2, ports := np }
@@ -246,11 +246,11 @@ def mkMachine (c : Cfg) : Option Machine :=
       pure { κ := Unit × (Unit × KeyedSt Int Int) × Unit, K := K.adapt intV id, k := ((), ((), ⟨m, [], 0⟩), ()),
              aux := fun k => showMap k.2.1.2.map, parse := pInt, keyed := fun p => p == 0, ports := np }
     | some "5" =>
-      let Ka : Comb (Unit × List (QEntry Int)) Int Int :=
+      let Ka : Comb (Unit × ResSt Int) Int Int :=
         (mapC (fun x : Int => ((x % 4).toNat, x))).comp (resolveC (β := Int) true true)
       let K := (fanoutC (α := Int)).comp2 Ka (idC (α := Int)) 1
-      pure { κ := Unit × (Unit × List (QEntry Int)) × Unit, K := K.adapt intV .int, k := ((), ((), []), ()),
-             aux := fun k => toString k.2.1.2.length, parse := pInt, ports := np }
+      pure { κ := Unit × (Unit × ResSt Int) × Unit, K := K.adapt intV .int, k := ((), ((), ⟨[], false⟩), ()),
+             aux := fun k => toString k.2.1.2.q.length, parse := pInt, ports := np }
     | _ => none
   | "state" =>
     match parseCsv c "st" with
